@@ -9,6 +9,9 @@ namespace TaRs
 @[inline] def floatMax (a b : Float) : Float :=
   if a.isNaN then b else if b.isNaN then a else if a < b then b else a
 
+@[inline] def floatMin (a b : Float) : Float :=
+  if a.isNaN then b else if b.isNaN then a else if b < a then b else a
+
 instance : Scalar Float where
   lit m e := Float.ofScientific m true e
   ofNat n := Float.ofNat n
@@ -26,5 +29,7 @@ instance : Scalar Float where
   isSignPositive a := (a.toBits >>> 63) == 0
   posInf := 1.0 / 0.0
   negInf := -1.0 / 0.0
+  nan := 0.0 / 0.0
+  min := floatMin
 
 end TaRs
